@@ -86,13 +86,18 @@ func (c *cancelReader) Read(p []byte) (int, error) {
 }
 
 type lockedWriter struct {
-	mu sync.Mutex
-	w  io.Writer
+	mu       sync.Mutex
+	w        io.Writer
+	returned bool // set (under mu) once the call under test has returned
+	late     int  // Write calls that arrived after that
 }
 
 func (l *lockedWriter) Write(p []byte) (int, error) {
 	l.mu.Lock()
 	defer l.mu.Unlock()
+	if l.returned {
+		l.late++
+	}
 	return l.w.Write(p)
 }
 
@@ -213,8 +218,12 @@ func runMscn(t []string) string {
 	var cmu sync.Mutex
 	var visits []visitRec
 	cbi := 0
+	cbReturned, cbLate := false, 0
 	cb := func(wn *gtree.WalkerNode) error {
 		cmu.Lock()
+		if cbReturned {
+			cbLate++
+		}
 		visits = append(visits, recVisit(wn))
 		i := cbi
 		cbi++
@@ -305,6 +314,29 @@ func runMscn(t []string) string {
 		timedOut = true
 	}
 	elapsed := time.Since(start)
+	// the call has returned (or is given up): from now on nothing may touch the writer or the callback,
+	// and no goroutine of the call may be left
+	lwr := w.(*lockedWriter)
+	lwr.mu.Lock()
+	lwr.returned = true
+	lwr.mu.Unlock()
+	cmu.Lock()
+	cbReturned = true
+	cmu.Unlock()
+	// a goroutine that has just closed its channels may not have left its deferred function yet: such a
+	// goroutine has nothing left to do and is gone after a few scheduler rounds (at most ~2 ms are allowed);
+	// anything that still WORKS is caught exactly by the late-use counters above
+	atReturn := 0
+	for i := 0; i < 20; i++ {
+		atReturn, _ = gtreeGoroutines()
+		atReturn -= before
+		if atReturn <= 0 {
+			atReturn = 0
+			break
+		}
+		runtime.Gosched()
+		time.Sleep(100 * time.Microsecond)
+	}
 	res := "timeout"
 	if !timedOut {
 		res = classify(err, cbfail)
@@ -348,7 +380,13 @@ func runMscn(t []string) string {
 	if parent.Err() != nil {
 		cancelled = "1"
 	}
-	return fmt.Sprintf("%s %d %d %s %s %s", res, elapsed.Milliseconds(), leaked, cancelled, strings.Join(pts, ","), chunks)
+	lwr.mu.Lock()
+	late := lwr.late
+	lwr.mu.Unlock()
+	cmu.Lock()
+	late += cbLate
+	cmu.Unlock()
+	return fmt.Sprintf("%s %d %d %s %s %s %d %d", res, elapsed.Milliseconds(), leaked, cancelled, strings.Join(pts, ","), chunks, atReturn, late)
 }
 
 // callDeadline: how long a massive call may take before it is reported as not returning. The
